@@ -255,7 +255,7 @@ def run(ctx: core.Ctx):
     ctx.rule = ('seeded provider histories (vf.mdibops) over the 4 sample MDIBs x {sync, async subscription manager} x contextstates_in_getmdib '
                 'on/off, one consumer attached before the first transaction and one after a random prefix; distinct = sequence of '
                 '(op kind, sub kind, interface, abort point, #handles, outcome) + variant; non-trivial = at least one transaction committed')
-    n_hist, length = (48, 40) if ctx.quick else (640, 150)
+    n_hist, length = (48, 40) if ctx.quick else (480, 120)
     jobs = [['w_histories', {'i': k, 'n': n_hist // 16, 'len': length}] for k in range(16)]
     core.fanout(ctx, MODULE, 'dispatch', jobs, timeout=3000)
     ctx.floor('mirror.comparisons', 1000)
